@@ -66,7 +66,7 @@ class Spec(core.PropSpec):
                 ops.append(["call"])
         return dict(spec=spec, seed=ro.choice([0, 1, 7, ro.randint(0, 2 ** 31 - 1)]), ambA=st("amb").getrandbits(30),
                     ambB=st("amb").getrandbits(30), ks=[ro.randint(0, 9) for _ in range(6)], ops=ops,
-                    variants=[ro.choice([0, 0, 0, 1, 2, 3, 4]) for _ in range(6)])
+                    variants=[ro.choice([0, 0, 0, 1, 2, 3, 4]) if st("big").random() > 0.08 else 5 for _ in range(6)])
 
     def shrink_candidates(self, plan):
         for s in C.spec_candidates(plan["spec"]):
